@@ -904,11 +904,12 @@ func (e *Exec) step(s *State) ([]*State, bool) {
 		}
 		cp := n
 		if x.Cap != nil {
-			c, forks := e.concretize(s, f, x.Cap, 0, 1<<20, nil)
-			if forks != nil {
-				return forks, false
+			// a symbolic capacity hint only pre-allocates: modelled as capacity = length (appends then allocate)
+			if cs, ok := e.get(s, f, x.Cap).(Sym); ok {
+				if c, isC := asConst(cs.S); isC && c.IsInt64() {
+					cp = c.Int64()
+				}
 			}
-			cp = c
 			if cp < n {
 				cp = n
 			}
